@@ -1,0 +1,13 @@
+//go:build !verif
+
+package promapi
+
+// Empty twins of the verification hooks (see hooks_verif.go); they inline to nothing.
+
+func verifTrace(string, string, chan queryResult) {}
+
+func verifJob(string, queryRequest) {}
+
+func verifJobEnd(queryRequest, error) {}
+
+func verifCache(string, uint64) {}
